@@ -29,7 +29,7 @@ func init() {
 			{ID: "C12-R2", Title: "clamp is exhaustive, pure and enforces each bound independently", Decides: "the stored value lies within its declared minimum and maximum", Floor: 8, Run: c12r2},
 			{ID: "C12-R3", Title: "getters, adapters and bound setters agree with the conversion types", Decides: "typed getters never fail; a declared bound is never skipped", Floor: 10, Run: func(c *core.Ctx) { c12r3(c); boundsHaveTheFormatsType(c) }},
 			{ID: "C12-R4", Title: "non-finite floats are excluded before the store", Decides: "the attribute database always encodes; value within range", Floor: 1, Run: c12r4},
-			{ID: "C12-R5", Title: "every stored value is converted; interface comparisons only on converted values", Decides: "null and repeated composite writes keep the declared type and do not panic", Floor: 2, Run: func(c *core.Ctx) { c12r5(c); passThrough(c, "C12") }},
+			{ID: "C12-R5", Title: "every stored value is converted; interface comparisons only on converted values", Decides: "null and repeated composite writes keep the declared type and do not panic", Floor: 2, Run: func(c *core.Ctx) { c12r5(c); passThrough(c, "C12"); returnsUndecorated(c, "C12") }},
 		},
 	})
 }
